@@ -299,6 +299,27 @@ func c15FinishedHash(c *Ctx) {
 				}
 			}
 			c.Check(ok2, rule, fname(f), fmt.Sprintf("finishedHash literal #%d has its MD5 pair unless it is TLS 1.2 only", n), "", "a finishedHash whose version can be below TLS 1.2 (GMSSL is 0x0101) is built with nil MD5 hashes: finishedHash.Write dereferences them", al.Pos())
+			// the PRF is called unconditionally by clientSum/serverSum (TLS 1.0 and later) and by the key derivation:
+			// it may not be nil on any path that builds this literal
+			c.Evals++
+			prfNil := false
+			var chk func(v ssa.Value, seen map[ssa.Value]bool)
+			chk = func(v ssa.Value, seen map[ssa.Value]bool) {
+				if seen[v] {
+					return
+				}
+				seen[v] = true
+				if isNilConst(v) {
+					prfNil = true
+				}
+				if ph, ok := v.(*ssa.Phi); ok {
+					for _, e := range ph.Edges {
+						chk(e, seen)
+					}
+				}
+			}
+			chk(fields["prf"], map[ssa.Value]bool{})
+			c.Check(!prfNil, rule, fname(f), fmt.Sprintf("finishedHash literal #%d has a PRF", n), "", "a finishedHash is built with a nil prf function (e.g. the variable assigned in an inner scope shadows the one used here): computing the Finished message for this version calls a nil function", al.Pos())
 		})
 	}
 	if n < 3 {
